@@ -94,6 +94,8 @@ class ReqCtx:
 # --------------------------------------------------------------------------
 def _start(tname, fname, root, ctx, info):
     path = tuple(info.path)
+    if tname == "Subscription":
+        ctx.select_event(root)
     ctx.log("rs", path, ctx.req_id)
     seq = None
     if tname == "Mutation":
